@@ -20,6 +20,8 @@ type World struct {
 	IdP   []*sim.Cert // idp1, idp2 (RSA), idp3 (EC)
 	Atk   []*sim.Cert // atk1 (RSA), atk2 (EC)
 	SPEnc *sim.Cert
+	// Pool, when set, makes SPFor hand out one long-lived reconfigured SP for about half of the cases.
+	Pool *SPPool
 }
 
 func NewWorld(now time.Time) *World {
@@ -261,7 +263,14 @@ func SPFor(r *rand.Rand, w *World, signer *sim.Cert) (*saml2.SAMLServiceProvider
 			}
 		}
 	}
-	sp, clk, st := NewSP(w.Now, store...)
+	var sp *saml2.SAMLServiceProvider
+	var clk *SpyClock
+	var st *SpyStore
+	if w.Pool != nil && r != nil && r.IntN(2) == 0 {
+		sp, clk, st = w.Pool.Get(w.Now, store...)
+	} else {
+		sp, clk, st = NewSP(w.Now, store...)
+	}
 	sp.SPKeyStore = &RSAKeyStore{C: w.SPEnc}
 	return sp, clk, st
 }
